@@ -25,13 +25,38 @@ theorem deadJid_false {c : Cfg} {v : Vol} (h : notDead c v) (j : Nat) : deadJid 
   intro x hx _
   exact h.1 x hx
 
-theorem advance_hold (c : Cfg) (fuel ev : Nat) (f : Frame) (rp : Option Nat) (v : Vol) (hnd : notDead c v) (hmc : f.mc = 0)
+/-- a batch that is the whole fan-out is not complete before the join is -/
+theorem batch_not_done {mc w idx : Nat} {filled : List Nat} (hmc : w ≤ mc) (hidx : idx < w) (hlt : filled.length < w) :
+    ¬ ∀ x, x ∈ batchOf mc w (idx / mc * mc) → x ∈ filled := by
+  intro hall
+  have h0 : idx / mc = 0 := Nat.div_eq_of_lt (by omega)
+  rw [h0, Nat.zero_mul] at hall
+  have hfull : ∀ i, i < w → i ∈ filled := by
+    intro i hi
+    exact hall i (by simp [batchOf]; omega)
+  have := length_ge_of_full w filled hfull
+  omega
+
+theorem advance_hold (c : Cfg) (fuel ev : Nat) (f : Frame) (rp : Option Nat) (v : Vol) (hnd : notDead c v)
+    (hmc : f.mc = 0 ∨ f.branches.toList.length ≤ f.mc) (hidx : f.idx < f.branches.toList.length)
     (hlt : (joinAfter v.joins f ev rp).filled.length < f.branches.toList.length) :
     advance Quirks.none c (fuel + 1) ev .done [f] none rp v =
       ([], { v with joins := setJoin v.joins (joinAfter v.joins f ev rp) }) := by
   have hnot : ¬ (joinAfter v.joins f ev rp).filled.length ≥ f.branches.toList.length := by omega
   have hd : deadJid ({} : Quirks) c v f.jid = false := deadJid_false hnd f.jid
-  cases rp <;> simp [advance, Quirks.none, joinAfter, hmc, hd] at hnot ⊢ <;> (intro hh; omega)
+  rcases hmc with hmc | hmc
+  · cases rp <;> simp [advance, Quirks.none, joinAfter, hmc, hd] at hnot ⊢ <;> (intro hh; omega)
+  · cases rp with
+    | none =>
+      have hbd := batch_not_done (filled := (joinAfter v.joins f ev none).filled) hmc hidx hlt
+      simp only [joinAfter] at hbd
+      simp [advance, Quirks.none, joinAfter, hd] at hnot ⊢
+      rw [if_neg (by omega), if_neg (fun h => hbd h.1.2)]
+    | some r =>
+      have hbd := batch_not_done (filled := (joinAfter v.joins f ev (some r)).filled) hmc hidx hlt
+      simp only [joinAfter] at hbd
+      simp [advance, Quirks.none, joinAfter, hd] at hnot ⊢
+      rw [if_neg (by omega), if_neg (fun h => hbd h.1.2)]
 
 theorem advance_join_next (c : Cfg) (fuel ev : Nat) (f : Frame) (rp : Option Nat) (v : Vol) (hnd : notDead c v)
     (hge : f.branches.toList.length ≤ (joinAfter v.joins f ev rp).filled.length) (hv : f.rest.isVisit = true) :
